@@ -50,7 +50,8 @@ pub fn gen_lookup_op(rng: &mut Rng, spec: &crate::world::WorldSpec, alphabet: us
         0..=3 => Op::Resolve { path, nofollow: false },
         4..=5 => Op::Resolve { path, nofollow: true },
         6..=8 => Op::OpenSubpath { path, flags: gen::gen_open_flags(rng) & !libc::O_TRUNC },
-        _ => Op::Readlink { path, bufsz: 4096 },
+        // (C facade: the whole body's length is returned whatever the buffer holds; sizes around small bodies)
+        _ => Op::Readlink { path, bufsz: *rng.pick(&[4096i64, 4096, 4096, 0, 1, 2, 3, 5, 8, 16]) },
     };
     let mut s = OpSpec::new(op);
     if rng.chance(1, 3) {
